@@ -16,6 +16,11 @@ CLAIMED = {
     design='5 C04',
     note='Trusted: z3 on the abstracted QF_NRA queries (log/exp atoms + instantiated lemmas), object-dtype NumPy semantics (cross-checked by a float run per configuration), reference formulas in harness/refs.py. Reals, not floats. Longer vectors are outside the bound.',
     technique='symbolic execution of the real NumPy code on z3 reals (own executor) + SMT validity queries; counter-examples replayed on the float code'),
+ 'C05': dict(
+    text='Bounded symbolic verification of every population model class: value = documented density sum, layout invariance (flat / matrix / per-individual tensor), composed = sum of parts, sensitivities in the separate, flattened and reduced forms = derivative of loglik + <G, psi> with symbolic upstream G, lengths = reported counts; all real parameter values, n_dim <= 2 (3), n_ids <= 2 (3).',
+    design='5 C05',
+    note='Trusted: z3, object-dtype NumPy, harness/popspec.py densities, erf axioms (odd, bounded, monotone, derivative). sigma>0 assumed. Known finding: matrix layout misread by 3 methods (pinned by stable tests).',
+    technique='symbolic execution of the real NumPy code on z3 reals + SMT validity queries; symbolic differentiation of the value term as gradient oracle'),
 }
 
 NOT_APPLICABLE = {
